@@ -1,4 +1,5 @@
 import HcipyVerif.Lemmas.ZernikeIndex
+import HcipyVerif.Lemmas.ZernikeIndexReal
 import HcipyVerif.Lemmas.ZernikeTables
 import HcipyVerif.Lemmas.ZernikeTrig
 import HcipyVerif.Lemmas.ZernikeIntegral
@@ -195,6 +196,56 @@ theorem ansi_order_m (i i' : Nat) (hn : (ansiToZernike i).1 = (ansiToZernike i')
   subst this
   rw [hm, hm']; ring
 
+
+/-! ## The float square roots of the index maps
+
+The code computes `n = int(sqrt(2*i - 1) + 0.5) - 1` (Noll) and `n = int((sqrt(8*i + 1) - 1) / 2)` (ANSI) in double
+precision; the model decides with exact integer arithmetic (`roundSqrt`, `Nat.sqrt`).  The theorems below say that the
+model's integer is the floor of the *real* value of the code's expression **and of every real number within an explicit
+margin of it** — so a floating-point evaluation whose error stays below the margin takes the same decision.  The
+`_float_safe` forms instantiate the margin for a relative error of `2⁻⁵²` (two correctly rounded operations); what remains
+assumed is only that `math.sqrt`, `+`, `-`, `/` are correctly rounded (IEEE 754), no longer "the compared range". -/
+
+/-- Noll: every real `y` within `1/(8·round(√k)+4)` of `√k + ½` (`k = 2i-1`) floors to the model's `roundSqrt k` -/
+theorem noll_order_float_robust (i : Nat) (hi : 1 ≤ i) (y : ℝ)
+    (hy : |y - (√((2 * i - 1 : ℕ) : ℝ) + 1 / 2)| < 1 / (8 * (roundSqrt (2 * i - 1) : ℝ) + 4)) :
+    ⌊y⌋₊ - 1 = (nollToZernike i).1 := by
+  show ⌊y⌋₊ - 1 = nollN i
+  unfold nollN
+  rw [roundSqrt_floor_robust (2 * i - 1) (by omega) y hy]
+
+/-- Noll, double precision: for every index `i` with `2i-1 < 2⁴⁸` (`i ≤ 1.4·10¹⁴`) and every `y` with relative error at most
+`2⁻⁵²` from `√(2i-1) + ½`, `int(y) - 1` is the radial order of the model -/
+theorem noll_order_float_safe (i : Nat) (hi : 1 ≤ i) (hb : 2 * i - 1 < 2 ^ 48) (y : ℝ)
+    (hy : |y - (√((2 * i - 1 : ℕ) : ℝ) + 1 / 2)| ≤ (√((2 * i - 1 : ℕ) : ℝ) + 1 / 2) / 2 ^ 52) :
+    ⌊y⌋₊ - 1 = (nollToZernike i).1 := nollN_float_safe i hi hb y hy
+
+/-- ANSI: every real `y` within `1/(2n+3)` of `(√(8i+1) - 1)/2` floors to the model's `n` — provided `y` is exact when
+`8i+1` is a perfect square (the first index of every row; `sqrt` of a perfect square, `- 1` and `/ 2` are exact in binary
+floating point), where the real value is itself an integer and there is no margin below -/
+theorem ansi_order_float_robust (i : Nat) (y : ℝ)
+    (hexact : ∀ t : ℕ, t * t = 8 * i + 1 → y = ((t : ℝ) - 1) / 2)
+    (hy : |y - (√((8 * i + 1 : ℕ) : ℝ) - 1) / 2| < 1 / (2 * ((ansiToZernike i).1 : ℝ) + 3)) :
+    ⌊y⌋₊ = (ansiToZernike i).1 := ansi_floor_robust i y hexact hy
+
+/-- ANSI, double precision: `8i+1 < 2⁵⁰` (`i ≤ 1.4·10¹⁴`), error at most `√(8i+1)·2⁻⁵²` -/
+theorem ansi_order_float_safe (i : Nat) (hb : 8 * i + 1 < 2 ^ 50) (y : ℝ)
+    (hexact : ∀ t : ℕ, t * t = 8 * i + 1 → y = ((t : ℝ) - 1) / 2)
+    (hy : |y - (√((8 * i + 1 : ℕ) : ℝ) - 1) / 2| ≤ √((8 * i + 1 : ℕ) : ℝ) / 2 ^ 52) :
+    ⌊y⌋₊ = (ansiToZernike i).1 := ansiN_float_safe i hb y hexact hy
+
+/-- the hypotheses are satisfiable: the exact values themselves (`i = 3`: `√5 + ½`; `√25 = 5`, `y = 2`) -/
+example : |(√((2 * 3 - 1 : ℕ) : ℝ) + 1 / 2) - (√((2 * 3 - 1 : ℕ) : ℝ) + 1 / 2)| ≤ (√((2 * 3 - 1 : ℕ) : ℝ) + 1 / 2) / 2 ^ 52 := by
+  rw [sub_self, abs_zero]; positivity
+example : ∃ y : ℝ, (∀ t : ℕ, t * t = 8 * 3 + 1 → y = ((t : ℝ) - 1) / 2) ∧
+    |y - (√((8 * 3 + 1 : ℕ) : ℝ) - 1) / 2| ≤ √((8 * 3 + 1 : ℕ) : ℝ) / 2 ^ 52 := by
+  have h5 : √((8 * 3 + 1 : ℕ) : ℝ) = 5 := by
+    rw [show ((8 * 3 + 1 : ℕ) : ℝ) = 5 ^ 2 by norm_num]; exact Real.sqrt_sq (by norm_num)
+  refine ⟨2, ?_, ?_⟩
+  · intro t ht
+    have : t = 5 := by nlinarith
+    subst this; norm_num
+  · rw [h5]; norm_num
 
 /-! ## Radial polynomial: the q-recursion equals the factorial definition -/
 
